@@ -1,5 +1,6 @@
 import MgpuModel.C05
 import MgpuProofs.C05
+import MgpuProofs.C05Sites
 import MgpuProofs.Props.C04
 /-! # C05 — property theorems (simulations are reproducible bit for bit)
 
@@ -29,10 +30,15 @@ def auditedMapSites : List (String × String × String) := [
     the CURRENT tree is one of the audited sites. A new (or moved) map loop breaks this. -/
 theorem map_sites_all_audited : Gen.mapSites.all (auditedMapSites.contains ·) = true := by decide
 
-/-- wall-clock reads allowed: the sampling engine stores a start time for its own statistics
-    (opt-in `-wf-sampling`; the value never feeds simulated time) -/
+/-- wall-clock / random / per-process sources allowed: the sampling engine stores a start time
+    for its own statistics (opt-in `-wf-sampling`; the field is never read), and `xid` identifiers
+    name the simulation task and two kinds of re-sent memory requests (identifiers are only compared
+    for equality and written to the trace — see `clock_values_reach_no_output`) -/
 def allowedClockSites : List (String × String × String) := [
-  ("amd/sampling/wfsampling.go", "SampledEngine.Reset", "time.Now")
+  ("amd/driver/driver.go", "Driver.logSimulationStart", "xid.New"),
+  ("amd/sampling/wfsampling.go", "SampledEngine.Reset", "time.Now"),
+  ("amd/timing/cu/computeunit.go", "ComputeUnit.sendScalarShadowBufferAccesses", "xid.New"),
+  ("amd/timing/cu/computeunit.go", "ComputeUnit.sendInstFetchShadowBufferAccesses", "xid.New")
 ]
 
 /-- **No wall clock or random source** in the simulator packages beyond the allowed statistics. -/
@@ -69,16 +75,8 @@ theorem site_initFormatList (l : List Gen.Format) (hp : l.Perm Gen.formats) (hs 
 /-- `initializeDecodeTable`: whatever order the VOP1 rows are copied in, every table lookup gives
     the same row (only the never-read `InstType.ID` depends on the order). -/
 theorem site_decodeTableCopy (cs : List Gen.Row) (hp : cs.Perm C04.copies) (ft op : Nat) :
-    C04.lastRow (Gen.rowsBefore ++ cs ++ Gen.rowsAfter) ft op = C04.lookUp ft op := by
-  unfold C04.lookUp C04.allRows
-  have hperm : (Gen.rowsBefore ++ cs ++ Gen.rowsAfter).Perm (Gen.rowsBefore ++ C04.copies ++ Gen.rowsAfter) :=
-    ((List.Perm.refl _).append hp).append (List.Perm.refl _)
-  have hk := C04.rows_keys_nodup
-  unfold C04.allRows at hk
-  have hk' : ((Gen.rowsBefore ++ cs ++ Gen.rowsAfter).map C04.rkey).Nodup :=
-    (hperm.map _).nodup_iff.mpr hk
-  exact C04.lastRow_perm _ _ hperm hk'
-    (fun r hr => C04.rows_opcode_bound r (hperm.subset hr)) ft op
+    C04.lastRow (Gen.rowsBefore ++ cs ++ Gen.rowsAfter) ft op = C04.lookUp ft op :=
+  decodeTableCopy_any cs hp ft op
 
 /-- `GetCPIStack` / `GetSIMDCPIStack`: a map built by inserting the entries of a map (pairwise
     distinct keys) is the same map for every iteration order. -/
@@ -90,5 +88,280 @@ theorem site_cpiStack (m₁ m₂ : List (Nat × Nat)) (hp : m₁.Perm m₂) (hk 
 theorem site_reportKeys (k₁ k₂ : List Nat) (hp : k₁.Perm k₂)
     (s₁ : k₁.Pairwise (· < ·)) (s₂ : k₂.Pairwise (· < ·)) : k₁ = k₂ :=
   List.Perm.eq_of_pairwise (le := (· < ·)) (fun _ _ _ _ h1 h2 => absurd h1 (Nat.lt_asymm h2)) s₁ s₂ hp
+
+/-! ## Deepening: every site of the generated lists is covered by a theorem about ITS CURRENT SOURCE -/
+
+/-- **Every map-range site is order independent.** For every `range` over a map that the
+    translator finds in the simulator packages of the current tree, there is a certificate keyed by
+    (file, function, operand, HASH of the loop's normalised source + the statements after it that
+    use what it wrote + the same-package functions it calls), and the certificate holds: either a
+    `LoopModel` of that loop whose result is the same for EVERY permutation of the map's entries
+    (first match among disjoint ranges; last-insertion-wins with pairwise distinct keys; sorted
+    afterwards by any — also unstable — sorting routine), or the checked classification "only prints".
+    A new site, or an edit of an audited loop / its callee / the sort behind it, changes the key and
+    breaks this theorem; the guard in `MgpuProofs/C05Sites.lean` then names the site. -/
+theorem every_map_site_order_independent :
+    ∀ s ∈ Gen.mapSiteInfos, ∃ c, (keyOf s, c) ∈ certified ∧ c.Holds s := by
+  intro s hs
+  simp only [Gen.mapSiteInfos, List.mem_cons, List.not_mem_nil, or_false] at hs
+  rcases hs with rfl | rfl | rfl | rfl | rfl | rfl
+  · exact ⟨.model devidLoop, by simp [certified, keyOf], devidLoop_oi⟩
+  · exact ⟨.model decodeCopyLoop, by simp [certified, keyOf], decodeCopyLoop_oi⟩
+  · exact ⟨.model formatListLoop, by simp [certified, keyOf], formatListLoop_oi⟩
+  · exact ⟨.model reportKeysLoop, by simp [certified, keyOf], reportKeysLoop_oi⟩
+  · exact ⟨.model cpiStackLoop, by simp [certified, keyOf], cpiStackLoop_oi⟩
+  · exact ⟨.model cpiStackLoop, by simp [certified, keyOf], cpiStackLoop_oi⟩
+
+/-- the same coverage as a decidable check (what the build guard evaluates) -/
+theorem no_uncovered_map_site : uncovered = [] := by decide
+
+/-- every certificate in the registry holds (also for keys no current site has) -/
+theorem certified_all_order_independent :
+    ∀ p ∈ certified, ∀ m, p.2 = Cert.model m → m.OrderIndependent := by
+  intro p hp m hm
+  simp only [certified, List.mem_cons, List.not_mem_nil, or_false] at hp
+  rcases hp with rfl | rfl | rfl | rfl | rfl | rfl <;> (injection hm with hm; subst hm)
+  · exact devidLoop_oi
+  · exact decodeCopyLoop_oi
+  · exact formatListLoop_oi
+  · exact reportKeysLoop_oi
+  · exact cpiStackLoop_oi
+  · exact cpiStackLoop_oi
+
+/-! non-vacuity: the `Valid` hypotheses are met, and the sort parameters exist -/
+example : devidLoop.Valid (17000 : Nat) (register [4096, 8192, 0, 8192] 0 4096).reverse :=
+  ⟨[4096, 8192, 0, 8192], 4096, List.reverse_perm _⟩
+example : devidLoop.run (17000 : Nat) (register [4096, 8192, 0, 8192] 0 4096).reverse = (some 3 : Option Nat) :=
+  (by decide : deviceIDByPAddr (register [4096, 8192, 0, 8192] 0 4096).reverse 17000 = some 3)
+example : decodeCopyLoop.Valid (0, 0) C04.copySources.reverse := List.reverse_perm _
+example : cpiStackLoop.Valid (id, 0, "x") [("VALU", 1.5), ("Idle", 2.5)] := by
+  show (["VALU", "Idle"] : List String).Nodup; decide
+/-- `sortStr` (insertion sort) is one admissible `sort.Strings` -/
+def sortStrSpec : StrSort := ⟨sortStr, fun l => ⟨sortStr_perm l, sortStr_sorted l⟩⟩
+example : reportKeysLoop.run sortStrSpec ["total", "VALU", "Idle"] = ["Idle", "VALU", "total"] := by
+  show sortStr ["total", "VALU", "Idle"] = ["Idle", "VALU", "total"]; decide
+
+/-- **The whole CPI-stack report is a function of the `timeStack` map's content**: whatever the
+    iteration orders of the loop in `GetCPIStack` (`es₁` vs `es₂`) and of the loop in
+    `reportCPIStackEntries` (`o₁` vs `o₂`), the rows handed to the data recorder — names in
+    `sort.Strings` order, each with its value — are the same list. -/
+theorem cpi_report_order_independent {ν ν' : Type} (f : ν → ν') (total : ν')
+    (es₁ es₂ : List (String × ν)) (hp : es₁.Perm es₂) (hk : (es₁.map (·.1)).Nodup)
+    (o₁ o₂ : List String) (ho : o₁.Perm o₂) :
+    reportRows (cpiStackOf f total es₁) o₁ = reportRows (cpiStackOf f total es₂) o₂ := by
+  unfold reportRows
+  have hs : sortStr o₁ = sortStr o₂ :=
+    sorted_perm_eq _ _ ((sortStr_perm o₁).trans (ho.trans (sortStr_perm o₂).symm)) (sortStr_sorted _) (sortStr_sorted _)
+  rw [hs]
+  apply List.map_congr_left
+  intro k _
+  rw [cpiStackOf_lookup_perm f total es₁ es₂ hp hk k]
+
+example : reportRows (cpiStackOf (· * 2) 7 [("VALU", 3), ("Idle", 4)]) ["total", "VALU", "Idle"]
+        = reportRows (cpiStackOf (· * 2) 7 [("Idle", 4), ("VALU", 3)]) ["Idle", "total", "VALU"] := by decide
+
+/-! ### struct fields a map loop assigns (directly or in a callee): who can see the order? -/
+
+/-- per field: the functions that READ it (statement texts dropped) -/
+def orderFieldReaders : List (String × String) :=
+  ((Gen.orderFieldUses.filter (fun u => u.use != "write")).map fun u => (u.field, u.fn)).eraseDups
+
+/-- **The order-carrying state is read only where the models say.** The struct fields assigned
+    inside a map loop or the function it calls are: the decode tables (read by `lookUp` — modelled
+    by `C04.lookUp` — and by the table construction itself), the format list (read by `matchFormat`
+    — `C04.matchFormatIn` — and by its own sort), the id counter `nextInstID` (read by
+    `addInstType` only). `InstType.ID` — the one value that really depends on the iteration order
+    of the VOP1 copy loop — is written and NEVER read. -/
+theorem order_carrying_fields_audited :
+    orderFieldReaders = [
+      ("insts.decodeTable.insts", "Disassembler.initializeDecodeTable"),
+      ("insts.Disassembler.decodeTables", "Disassembler.initializeDecodeTable"),
+      ("insts.Disassembler.decodeTables", "Disassembler.addInstType"),
+      ("insts.decodeTable.insts", "Disassembler.addInstType"),
+      ("insts.Disassembler.nextInstID", "Disassembler.addInstType"),
+      ("insts.Disassembler.formatList", "Disassembler.matchFormat"),
+      ("insts.Disassembler.decodeTables", "Disassembler.lookUp"),
+      ("insts.decodeTable.insts", "Disassembler.lookUp"),
+      ("insts.Disassembler.formatList", "Disassembler.initFormatList")] ∧
+    (Gen.orderFieldUses.all fun u => u.field != "insts.InstType.ID" || u.use == "write") = true := by
+  constructor <;> decide
+
+/-! ## Clock / random / per-process values: where they go -/
+
+/-- how a wall-clock / random value is consumed -/
+inductive ClockClass
+  /-- stored in a field that is never read -/
+  | deadField
+  /-- an identifier stored in a simulator field whose every read is an argument of a tracing call -/
+  | traceId
+  /-- the id of an Akita message: compared for equality / used as a map key, never ordered -/
+  | msgId
+deriving DecidableEq, Repr
+
+def classifyClock (s : Gen.ClockSite) : Option ClockClass :=
+  if s.kind != "field" then none
+  else if s.consumer == "sim.MsgMeta.ID" then some .msgId
+  else
+    let reads := Gen.taintedFieldReads.filter (·.field == s.consumer)
+    if reads.isEmpty then some .deadField
+    else if reads.all (fun r => r.use == "arg" && r.calleePkg == "github.com/sarchlab/akita/v4/tracing") then some .traceId
+    else none
+
+/-- **No wall-clock, random or per-process value flows into simulated time, device memory or a
+    reported counter.** Every such source in the simulator packages (`time.*`, `math/rand`,
+    `crypto/rand`, `xid`, `uuid`, pid/hostname, CPU count) is consumed by an assignment to a struct
+    field, and the field is (i) never read (`SampledEngine.FullSimWallTimeStart`), or (ii) read only
+    as an argument of `tracing.StartTask/EndTask` (`Driver.simulationID` — the trace is not an
+    observable of the property), or (iii) the id of a message, and no string is ever ORDERED in the
+    simulator packages except the CPI-stack names sorted for the report (so an identifier can only be
+    compared for equality or used as a map key — and every map iteration is order independent by
+    `every_map_site_order_independent`). -/
+theorem clock_values_reach_no_output :
+    (Gen.clockSiteInfos.map fun s => (s.what, s.consumer, classifyClock s)) =
+      [("xid.New", "driver.Driver.simulationID", some .traceId),
+       ("time.Now", "sampling.SampledEngine.FullSimWallTimeStart", some .deadField),
+       ("xid.New", "sim.MsgMeta.ID", some .msgId),
+       ("xid.New", "sim.MsgMeta.ID", some .msgId)] ∧
+    Gen.stringOrderSites = [("amd/samples/runner/report.go", "reporter.reportCPIStackEntries", "sort.Strings(keys)")] := by
+  constructor <;> decide
+
+/-! ## Goroutines: what they share -/
+
+/-- `select` statements with more than one communication (Go chooses at random among the ready
+    ones): the listener's non-blocking notify (a notification for a listener that is being closed
+    is dropped either way) and `runAsync`'s wait for "enqueue" or "stop" (stop is sent once, by
+    `Terminate`, after the last drain returned) -/
+def auditedSelectSites : List (String × String × String) := [
+  ("amd/driver/commandqueue.go", "CommandQueueStatusListener.Notify", "<-l.closeSignal | l.signal <- true | default"),
+  ("amd/driver/driver.go", "Driver.runAsync", "<-d.driverStopped | <-d.enqueueSignal")
+]
+
+/-- **No unaudited multi-way select.** -/
+theorem select_sites_all_audited : Gen.selectSites.all (auditedSelectSites.contains ·) = true := by decide
+
+/-! A small lock-set analysis over the synchronisation skeleton the translator extracts from the
+function each `go` statement starts (`Gen.goSiteInfos`): which locks are held at every write to
+a shared field. Blocks restore the lock set they were entered with when they end in
+`return`/`continue`/`break`, otherwise the sets are intersected; a loop body must not end with
+fewer locks than it was entered with. -/
+
+structure LockWalk where
+  held : List String := []
+  stack : List (Bool × List String) := []
+  terminated : Bool := false
+  ok : Bool := true
+  writes : List (String × List String) := []
+
+def lockStep (w : LockWalk) (tok : String × String) : LockWalk :=
+  if tok.1 = "lock" then { w with held := tok.2 :: w.held }
+  else if tok.1 = "unlock" then { w with held := w.held.erase tok.2 }
+  else if tok.1 = "write" then { w with writes := w.writes ++ [(tok.2, w.held)] }
+  else if tok.1 = "term" then { w with terminated := true }
+  else if tok.1 = "open" then { w with stack := (tok.2 == "for", w.held) :: w.stack, terminated := false }
+  else if tok.1 = "close" then
+    match w.stack with
+    | [] => { w with ok := false }
+    | (isLoop, saved) :: st =>
+      let merged := if w.terminated then saved else w.held.filter (saved.contains ·)
+      { w with held := merged, stack := st, terminated := false,
+               ok := w.ok && (w.terminated || !isLoop || saved.all (w.held.contains ·)) }
+  else w
+
+def lockWalk (skeleton : List (String × String)) : LockWalk := skeleton.foldl lockStep {}
+
+/-- per shared field written by a goroutine: the locks held at EVERY such write -/
+def commonLocks (sites : List Gen.GoSite) : List (String × List String) :=
+  let ws := sites.flatMap fun s => (lockWalk s.skeleton).writes
+  (ws.map (·.1)).eraseDups.map fun f =>
+    (f, (ws.filter (·.1 == f)).foldl (fun acc w => acc.filter (w.2.contains ·)) ((ws.find? (·.1 == f)).map (·.2) |>.getD []))
+
+/-- **What the simulator's goroutines share** — regenerated from the source of the functions the
+    three `go` statements start, checked against the objects of the C12 protocol model:
+    the channels `driverStopped` and `enqueueSignal` (received by `runAsync`), the engine
+    (`Pause`/`TickLater`/`Continue`/`Run`, internally locked, modelled as `r.tick` / the `eng`
+    steps), `engineMutex` (one `runEngine` at a time) and the two flags `engineRunning`,
+    `enginePending`, EVERY write of which happens with `engineRunningMutex` held; the benchmark
+    goroutine of the runner shares nothing but the `WaitGroup` (each benchmark is an application
+    thread). The skeletons are well bracketed. -/
+theorem go_sites_shared_objects :
+    commonLocks Gen.goSiteInfos =
+      [("d.enginePending", ["d.engineRunningMutex"]), ("d.engineRunning", ["d.engineRunningMutex"])] ∧
+    (Gen.goSiteInfos.all fun s => (lockWalk s.skeleton).ok && (lockWalk s.skeleton).stack.isEmpty) = true ∧
+    ((Gen.goSiteInfos.flatMap (·.skeleton)).filter (fun t => t.1 == "recv" || t.1 == "send" ||
+        t.1 == "call" || t.1 == "go" || t.1 == "defer-call" || t.1 == "stmt")).eraseDups =
+      [("recv", "d.driverStopped"), ("recv", "d.enqueueSignal"), ("call", "d.Engine.Pause"), ("call", "d.TickLater"),
+       ("call", "d.Engine.Continue"), ("go", "d.runEngine"), ("call", "log.Printf"), ("call", "debug.PrintStack"),
+       ("call", "atexit.Exit"), ("call", "d.Engine.Run"), ("call", "panic"), ("call", "b.EnableVerification"),
+       ("call", "b.Run"), ("call", "b.Verify"), ("call", "wg.Done")] := by
+  refine ⟨?_, ?_, ?_⟩ <;> decide
+
+/-! ## The simulator's dependency Akita (audit level)
+
+The Akita packages the runner links (engine, ports, memory system, network, tracing, data recording,
+monitoring, analysis) are scanned by the same translator. Their sites are AUDITED — each with the
+hash of its source, so a new Akita version or a patched loop has to be looked at again — not
+modelled: the reasons are comments, not theorems. -/
+
+def auditedDepMapSites : List (String × String × String × String) := [
+  -- opt-in buffer analyzer (its own CSV/DB output): sums floats in map order — may differ in the last bit; not a reported metric
+  ("github.com/sarchlab/akita/v4@v4.9.0/analysis/buffer_analyzer.go", "BufferAnalyzer.summarizePeriod", "b.bufLevelToDuration", "7eecd905c5a59dd6"),
+  -- monitoring web UI (JSON for the dashboard)
+  ("github.com/sarchlab/akita/v4@v4.9.0/analysis/perf_analyzer.go", "PerfAnalyzer.GetCurrentTraffic", "b.portDataTable", "3438a123bb2fb442"),
+  -- opt-in port analyzer: row order of its own output
+  ("github.com/sarchlab/akita/v4@v4.9.0/analysis/port_analyzer.go", "PortAnalyzer.summarize", "h.remoteToTrafficMap", "5a63f1cb52a5e76c"),
+  -- table NAMES of a database, for readers
+  ("github.com/sarchlab/akita/v4@v4.9.0/datarecording/datareader.go", "sqliteReader.ListTables", "r.typeMap", "9f82a8d1f49699ac"),
+  ("github.com/sarchlab/akita/v4@v4.9.0/datarecording/datarecorder.go", "sqliteWriter.ListTables", "t.tables", "a9c3d99f91dbf79c"),
+  -- flush of the buffered rows table by table: disjoint tables; row order inside a table is insertion order
+  ("github.com/sarchlab/akita/v4@v4.9.0/datarecording/datarecorder.go", "sqliteWriter.Flush", "t.tables", "f3761477d1c4e8f6"),
+  -- DRAM bank: decrement every positive counter — disjoint writes, `madeProgress` is an OR
+  ("github.com/sarchlab/akita/v4@v4.9.0/mem/dram/internal/org/bankimpl.go", "BankImpl.countDownTiming", "b.cyclesToCmdAvailable", "71bea9946a0b7cc5"),
+  -- first process whose table maps the physical page: unique as long as a physical page belongs to one process (C10)
+  ("github.com/sarchlab/akita/v4@v4.9.0/mem/vm/pagetable.go", "pageTableImpl.ReverseLookup", "pt.tables", "632b40c5cbbcad0b"),
+  -- error message before `panic("port not found")`
+  ("github.com/sarchlab/akita/v4@v4.9.0/sim/portowner.go", "PortOwnerBase.GetPortByName", "po.ports", "5273b3e09f911841"),
+  -- names collected, `sort.Strings`, then ports in name order
+  ("github.com/sarchlab/akita/v4@v4.9.0/sim/portowner.go", "PortOwnerBase.Ports", "po.ports", "fba70ab1717a634b"),
+  -- sets a flag on every entry — disjoint writes
+  ("github.com/sarchlab/akita/v4@v4.9.0/tracing/dbtracer.go", "DBTracer.StartTracing", "t.tracingTasks", "db10029bf2a00f98")
+]
+
+/-- **No unaudited map iteration in the linked Akita packages** (same source as audited). -/
+theorem dep_map_sites_all_audited : Gen.depMapSites.all (auditedDepMapSites.contains ·) = true := by decide
+
+def auditedDepClockSites : List (String × String × String × String × String) := [
+  -- name of the output database when none is given
+  ("github.com/sarchlab/akita/v4@v4.9.0/datarecording/datarecorder.go", "sqliteWriter.Init", "xid.New", "field", "datarecording.sqliteWriter.dbName"),
+  -- wall-clock start/end of the execution, table `exec_info` (not `mgpusim_metrics`)
+  ("github.com/sarchlab/akita/v4@v4.9.0/datarecording/execrecorder.go", "execRecorder.Start", "time.Now", "local", "currentTime"),
+  ("github.com/sarchlab/akita/v4@v4.9.0/datarecording/execrecorder.go", "execRecorder.End", "time.Now", "local", "endTime"),
+  -- message ids
+  ("github.com/sarchlab/akita/v4@v4.9.0/mem/cache/protocol.go", "RestartRsp.Clone", "xid.New", "field", "sim.MsgMeta.ID"),
+  ("github.com/sarchlab/akita/v4@v4.9.0/mem/cache/protocol.go", "RestartRspBuilder.Build", "xid.New", "field", "sim.MsgMeta.ID"),
+  -- monitoring server
+  ("github.com/sarchlab/akita/v4@v4.9.0/monitoring/monitor.go", "Monitor.listResources", "os.Getpid", "local", "pid"),
+  ("github.com/sarchlab/akita/v4@v4.9.0/monitoring/monitor.go", "Monitor.collectProfile", "time.Sleep", "stmt", "time.Sleep"),
+  -- ids with the parallel engine (the serial engine uses the sequential generator)
+  ("github.com/sarchlab/akita/v4@v4.9.0/sim/idgenerator.go", "parallelIDGenerator.Generate", "xid.New", "return", ""),
+  -- worker count of the parallel engine
+  ("github.com/sarchlab/akita/v4@v4.9.0/sim/parallelengine.go", "NewParallelEngine", "runtime.GOMAXPROCS", "field", "sim.ParallelEngine.maxGoRoutine"),
+  ("github.com/sarchlab/akita/v4@v4.9.0/sim/parallelengine.go", "NewParallelEngine", "runtime.GOMAXPROCS", "local", "numQueues"),
+  -- id of the simulation (file name / trace)
+  ("github.com/sarchlab/akita/v4@v4.9.0/simulation/builder.go", "Builder.createSimulation", "xid.New", "return", "")
+]
+
+/-- **No unaudited wall-clock / random / per-process source in the linked Akita packages.** -/
+theorem dep_clock_sites_all_audited : Gen.depClockSites.all (auditedDepClockSites.contains ·) = true := by decide
+
+/-- goroutines Akita starts: the monitoring web server (2) and the parallel engine's workers —
+    none with the serial engine and monitoring off -/
+def auditedDepGoSites : List (String × String × String) := [
+  ("github.com/sarchlab/akita/v4@v4.9.0/monitoring/monitor.go", "Monitor.StartServer", "func literal"),
+  ("github.com/sarchlab/akita/v4@v4.9.0/monitoring/monitor.go", "Monitor.run", "func literal"),
+  ("github.com/sarchlab/akita/v4@v4.9.0/sim/parallelengine.go", "ParallelEngine.runEventWithTempWorker", "e.tempWorkerRun")
+]
+
+/-- **No unaudited goroutine in the linked Akita packages.** -/
+theorem dep_go_sites_all_audited : Gen.depGoSites.all (auditedDepGoSites.contains ·) = true := by decide
 
 end C05
